@@ -22,15 +22,28 @@ pub fn fnv(v: &[i32]) -> String {
     format!("{:016x}", h)
 }
 
+/// every class of the sample-rate code: the 11 fixed codes, kHz in one byte, Hz and 10 Hz in two bytes, and
+/// rates only STREAMINFO can carry
+fn pick_rate(r: &mut Rng) -> usize {
+    match r.below(6) {
+        0 => *r.pick(&[8000usize, 16000, 22050, 24000, 32000, 44100, 48000, 88200, 96000]),
+        1 => 1000 * (1 + r.below(95)) as usize,
+        2 => 10 * (1 + r.below(9599)) as usize,
+        3 => 1 + r.below(65535) as usize,
+        4 => *r.pick(&[65537usize, 70001, 95999, 88201]),
+        _ => *r.pick(&[1usize, 255, 256, 1000, 65535, 65540, 95990, 96000]),
+    }
+}
+
 fn small_stream(r: &mut Rng) -> Option<(Vec<u8>, String)> {
     let mut c = sig::gen_valid_cfg(r);
     let ch = *r.pick(&[1usize, 1, 2, 2, 3]);
     let bps = *r.pick(&[8usize, 16, 16, 24]);
-    let bs = *r.pick(&[32usize, 64, 64, 96, 128]);
+    let bs = *r.pick(&[32usize, 64, 64, 96, 128, 192, 255, 256, 257, 576]);
     let n = bs + r.below((bs + 20) as u64) as usize;
     let s = sig::gen_signal(r, ch, bps, n);
     c.bs = bs;
-    let case = s_enc::Case { cfg: c, rate: *r.pick(&[8000usize, 44100, 12345, 96000]), ch, bps, bs, samples: s.clone() };
+    let case = s_enc::Case { cfg: c, rate: pick_rate(r), ch, bps, bs, samples: s.clone() };
     let stream = s_enc::encode(&case).ok()?;
     Some((s_enc::stream_bytes(&stream), fnv(&s)))
 }
